@@ -37,6 +37,7 @@ type FuncCtx struct {
 	eng        *Engine
 	curPos     token.Pos
 	curInstr   ssa.Instruction
+	skipPre    bool
 	openChans  map[string]bool // channel terms read from fields declared openchan
 	fn         *ssa.Function
 	fc         *FuncContract
